@@ -24,7 +24,9 @@ template <typename IntegralN, typename IntegralK>
 static constexpr auto div_ceil(const IntegralN& n,
                                const IntegralK& k) -> decltype(n + k)
 {
-    return (n + k - 1) / k;
+    // n / k truncates; add one iff a positive remainder is left. (n + k - 1) / k
+    // overflows for large n although the quotient is representable.
+    return n / k + (n % k > 0 ? 1 : 0);
 }
 
 //! \}
